@@ -243,8 +243,10 @@ where
         let mut max_edge = self.min.clone();
         let mut n_bins = 0;
         while max_edge <= self.max {
-            max_edge = max_edge + self.bin_width.clone();
             n_bins += 1;
+            // Same expression as in `build`, so that the last edge built is
+            // the first one strictly greater than `max`.
+            max_edge = self.min.clone() + T::from_usize(n_bins).unwrap() * self.bin_width.clone();
         }
         n_bins
     }
